@@ -22,6 +22,11 @@ func (n NativeClockFn) String() string {
 	return "<native fn>"
 }
 
+// stdinReader is shared by all calls of the input function: a buffered reader may take more
+// than one line from the operating system at a time, and whatever it has buffered would be
+// lost if each call created its own reader.
+var stdinReader = bufio.NewReader(os.Stdin)
+
 // NativeInputFn defines the native `input` function for the interpreter.
 type NativeInputFn struct{}
 
@@ -50,8 +55,7 @@ func (n NativeInputFn) Call(i *Interpreter, arguments []interface{}) (interface{
 	}
 
 	// Read the input from the user
-	reader := bufio.NewReader(os.Stdin)
-	input, err := reader.ReadString('\n')
+	input, err := stdinReader.ReadString('\n')
 	if err != nil {
 		return nil, fmt.Errorf("failed to read input: %v", err)
 	}
